@@ -31,6 +31,7 @@ Rule(o) ==
       [] o.kind \in {"raises", "raises-nested", "raises-after-handle", "raises-in-arm"}
                                                      -> {Verdict(RaisesOK(n.raised, AsSet(n.declared), AsSet(n.handled)))}
       [] o.kind = "raises-multi"                     -> {Verdict(RaisesAllOK(n.raised_all, AsSet(n.declared), AsSet(n.handled)))}
+      [] o.kind = "raises-declare-list"              -> {Verdict(\A j \in 1..Len(n.declared_list) : DeclarableOK(n.declared_list[j]))}
       [] o.kind = "raises-declare"                   -> {Verdict(DeclarableOK(n.declared_class))}
       [] o.prop = "C09" /\ n.pattern = "shadow-new-type-old" -> {Verdict(InitOK("Int", "Str"))}   \* the new binding is a Str
       [] o.prop = "C09"                              -> Verdicts(o.prog)          \* the analysis of MambaScope on the program itself
